@@ -1,7 +1,7 @@
 (* C02 — Parsing yields exactly the document the text denotes.
    Pinned statements only.  Model: Model/Entity.v (src/entity.rs), Model/Builder.v (src/parse.rs). *)
 From Coq Require Import List NArith.
-From XotV Require Import Model.Base Model.Interning Model.Fullname Model.Entity Model.Builder Proofs.EntityProofs Proofs.BuilderProofs Gen.Tables Proofs.EntityTables.
+From XotV Require Import Model.Base Model.Interning Model.Fullname Model.Entity Model.Builder Proofs.EntityProofs Proofs.BuilderProofs.
 Import ListNotations.
 Open Scope N_scope.
 
@@ -38,11 +38,3 @@ Theorem C02_cdata_sections_decode :
   forall s, cdata_decode (serialize_cdata s) = Some s.
 Proof. exact cdata_roundtrip. Qed.
 Print Assumptions C02_cdata_sections_decode.
-
-
-(* the predefined entities the model resolves are the arms of `match entity.as_str()` in src/entity.rs as it is today
-   (Gen/Tables.v [named_entities], regenerated on every run): every other name is refused, each of these denotes its character *)
-Theorem C02_predefined_entities_are_the_sources :
-  forall name, named_entity name = assoc_str name named_entities.
-Proof. exact named_entity_is_the_table. Qed.
-Print Assumptions C02_predefined_entities_are_the_sources.
